@@ -103,6 +103,46 @@ def repo_hash():
 _mem = {}
 
 
+def public_names(d):
+    """def path -> the path a user of the crate writes, for every item defined in a module that is not publicly nameable
+    and re-exported (`pub use`) from one that is. Of several re-exports the one closest to the definition is taken."""
+    pub = {m['path'] for m in d.get('modules', []) if m['public']}
+
+    def nameable(mod):
+        parts = mod.split('::') if mod else []
+        return all('::'.join(parts[:i + 1]) in pub for i in range(len(parts)))
+    cands = {}
+    for r in d.get('reexports', []):
+        if not r['public'] or '::' not in r['target']:
+            continue
+        tmod = r['target'].rsplit('::', 1)[0]
+        amod = r['alias'].rsplit('::', 1)[0] if '::' in r['alias'] else ''
+        if nameable(tmod) or not nameable(amod) or r['alias'] == r['target']:
+            continue
+        cands.setdefault(r['target'], set()).add(r['alias'])
+    out = {}
+    for t, al in cands.items():
+        tp = t.split('::')
+
+        def common(a):
+            ap = a.split('::')
+            n = 0
+            while n < min(len(ap), len(tp)) and ap[n] == tp[n]:
+                n += 1
+            return n
+        out[t] = sorted(al, key=lambda a: (-common(a), len(a), a))[0]
+    return out
+
+
+def canonical_text(raw, names):
+    """rewrite every occurrence of a re-exported item's def path (as a whole path prefix) to its public name"""
+    if not names:
+        return raw
+    import re
+    rx = re.compile(r'(?<![A-Za-z0-9_:])(' + '|'.join(re.escape(t) for t in sorted(names, key=len, reverse=True)) + r')(?![A-Za-z0-9_])')
+    return rx.sub(lambda m: names[m.group(1)], raw)
+
+
 def get_facts(config='default'):
     """facts of the x86_64 crate for one build configuration (dict as written by the driver)"""
     key = ('repo', config)
@@ -121,7 +161,12 @@ def get_facts(config='default'):
             _prune(config, path)
         # read while holding the lock: a concurrent run's pruning must not remove the file in between
         with open(path) as fh:
-            d = json.load(fh)['x86_64']
+            raw = fh.read()
+    d = json.loads(raw)['x86_64']
+    names = public_names(d)
+    if names:
+        d = json.loads(canonical_text(raw, names))['x86_64']
+    d['public_names'] = names
     _mem[key] = d
     return d
 
@@ -159,8 +204,8 @@ def get_witness_facts():
             _prune('witness', path)
         with open(path) as fh:
             raw = fh.read()
-    w = json.loads(raw.replace('x86_64::', ''))['witness']
     base = get_facts('default')
+    w = json.loads(canonical_text(raw.replace('x86_64::', ''), base.get('public_names') or {}))['witness']
     d = {'fns': w['fns'] + base['fns'], 'consts': w['consts'] + base['consts'],
          'layouts': base['layouts'] + [l for l in w['layouts'] if l['tys'] not in set(x['tys'] for x in base['layouts'])],
          'impls': base['impls'], 'witness_fns': [f['name'] for f in w['fns']]}
